@@ -122,6 +122,69 @@ def spec_incr(impl, old_v, pattern, fl, date):
     return out
 
 
+def spec_render(pattern, v):
+    """Independent renderer of the documented pattern language: parts by their documented formats, optional groups omitted exactly when
+    all the parts inside them (nested groups included) are zero.  Returns None for patterns outside what it understands."""
+    fmt = {
+        "YYYY": lambda: "%d" % v.year_y, "YY": lambda: "%d" % (v.year_y % 100), "0Y": lambda: "%02d" % (v.year_y % 100),
+        "GGGG": lambda: "%d" % v.year_g, "GG": lambda: "%d" % (v.year_g % 100), "0G": lambda: "%02d" % (v.year_g % 100),
+        "Q": lambda: "%d" % v.quarter, "MM": lambda: "%d" % v.month, "0M": lambda: "%02d" % v.month, "DD": lambda: "%d" % v.dom, "0D": lambda: "%02d" % v.dom,
+        "JJJ": lambda: "%d" % v.doy, "00J": lambda: "%03d" % v.doy, "WW": lambda: "%d" % v.week_w, "0W": lambda: "%02d" % v.week_w,
+        "UU": lambda: "%d" % v.week_u, "0U": lambda: "%02d" % v.week_u, "VV": lambda: "%d" % v.week_v, "0V": lambda: "%02d" % v.week_v,
+        "MAJOR": lambda: "%d" % v.major, "MINOR": lambda: "%d" % v.minor, "PATCH": lambda: "%d" % v.patch, "BUILD": lambda: v.bid, "BLD": lambda: "%d" % int(v.bid),
+        "TAG": lambda: v.tag, "PYTAG": lambda: v.pytag, "NUM": lambda: "%d" % v.num, "INC0": lambda: "%d" % v.inc0, "INC1": lambda: "%d" % v.inc1,
+    }
+    zero = {"MAJOR": "0", "MINOR": "0", "PATCH": "0", "NUM": "0", "INC0": "0", "TAG": "final", "PYTAG": ""}
+    names = sorted(fmt, key=len, reverse=True)
+    pos = [0]
+
+    def group(depth):
+        """-> (text, all parts zero?, number of parts)"""
+        out, allzero, nparts = [], True, 0
+        while pos[0] < len(pattern):
+            c = pattern[pos[0]]
+            if pattern.startswith("\\[", pos[0]) or pattern.startswith("\\]", pos[0]):
+                out.append(pattern[pos[0] + 1]); pos[0] += 2
+            elif c == "[":
+                pos[0] += 1
+                t, z, n = group(depth + 1)
+                nparts += n
+                if n and z:
+                    pass          # omitted
+                else:
+                    out.append(t)
+                    allzero = allzero and (z or n == 0)
+                if n and not z:
+                    allzero = False
+            elif c == "]":
+                if depth == 0:
+                    raise ValueError("unbalanced")
+                pos[0] += 1
+                return "".join(out), allzero, nparts
+            else:
+                for nme in names:
+                    if pattern.startswith(nme, pos[0]):
+                        try:
+                            val = fmt[nme]()
+                        except TypeError:
+                            raise ValueError("part without value")
+                        out.append(val)
+                        nparts += 1
+                        if zero.get(nme, None) != val:
+                            allzero = False
+                        pos[0] += len(nme)
+                        break
+                else:
+                    out.append(c); pos[0] += 1
+        if depth:
+            raise ValueError("unbalanced")
+        return "".join(out), allzero, nparts
+    try:
+        return group(0)[0]
+    except (ValueError, TypeError):
+        return None
+
+
 def check_spec(rep, impl, old, pattern, fl, date, new):
     from bumpver import version
     try:
@@ -146,6 +209,11 @@ def check_spec(rep, impl, old, pattern, fl, date, new):
             rep.violation("part %s is %r, the documented rules give %r" % (f, got, want),
                           input=dict(old=old, pattern=pattern, flags=fl, date=str(date), new=new), **{"class": "rule-" + f})
             return
+    # the text: parts in their documented formats, optional groups omitted exactly when all their parts are zero
+    want_text = spec_render(pattern, new_v)
+    if want_text is not None and want_text != new and "^" not in pattern and "$" not in pattern:
+        rep.violation("the new version is written %r, the documented rendering of its parts is %r" % (new, want_text),
+                      input=dict(old=old, pattern=pattern, flags=fl, date=str(date), new=new), **{"class": "rule-rendering"})
 
 
 def expected_success(impl, old, pattern, fl, date):
